@@ -6,15 +6,17 @@ Model.AddrBook.run_case evaluated by vm_compute.  Predicates: the property state
 the Rust behaviour alone (authentic, strictly-newer replacement, rejected batch = no change,
 non-members ignored, convergence of nodes that saw the same announcements)."""
 import json
+import re
 import common
 from common import Rng, coq_z, coq_list, coq_bool
 
 PROP_FILES = ["theories/Properties/C18.v"]
 POOL = 8
 U64M = (1 << 64) - 1
-# time::Duration range is (i64 seconds, |nanos| < 10^9); the generator stays one second inside the
-# lower end because encoding seconds = i64::MIN with negative nanoseconds overflows in
-# protobuf std_conv (Duration::build: `seconds -= 1`), which is not this property's subject.
+# time::Duration range is (i64 seconds, |nanos| < 10^9).  The generator stays one second inside the
+# lower end: a value with seconds = i64::MIN and negative nanoseconds cannot be encoded (protobuf
+# std_conv Duration::build does `seconds -= 1`) and cannot arrive from the wire either (the decoder
+# rejects it as "duration out of range", probed), so it is outside what peers can send.
 TS_MAX = ((1 << 63) - 1) * 10 ** 9 + 999999999
 TS_MIN = -TS_MAX
 NOW = 1790000000 * 10 ** 9
@@ -247,6 +249,41 @@ def coq_case(c, chk):
     return "(%s, %s)" % (coq_bool(chk), coq_list(ops))
 
 
+# Coq spends ~0.03 ms per digit on numerals, and the cases are mostly 15-28 digit numbers that repeat
+# (the same stamp in message and signature, the same book row after every step).  Long numerals are
+# therefore written relative to a few named constants or let-bound once per term.
+BIGNUM = re.compile(r"\(-\d{7,}\)|(?<![\w.])\d{7,}")
+GCONST = [("gU64M", U64M), ("gTSMAX", TS_MAX), ("gNOW", NOW)]
+PREAMBLE = ("From EC Require Import Model.AddrBook.\n" +
+            "".join("Definition %s : BinNums.Z := %d%%Z.\n" % (n, v) for n, v in GCONST))
+
+
+def compress(term):
+    names, binds = {}, []
+    counts = {}
+    for m in BIGNUM.finditer(term):
+        counts[m.group(0)] = counts.get(m.group(0), 0) + 1
+
+    def short(tok):
+        if tok in names:
+            return names[tok]
+        v = int(tok.strip("()"))
+        r = None
+        for g, gv in GCONST:
+            if abs(v - gv) < 10 ** 6:
+                r = g if v == gv else "(%s %s %d)" % (g, "+" if v > gv else "-", abs(v - gv))
+            elif abs(v + gv) < 10 ** 6:
+                r = "(%d - %s)" % (v + gv, g)
+        if r is None and counts[tok] > 1:
+            r = "b%d" % len(binds)
+            binds.append("let %s := %s in " % (r, tok))
+        names[tok] = r or tok
+        return names[tok]
+
+    body = BIGNUM.sub(lambda m: short(m.group(0)), term)
+    return "(" + "".join(binds) + body + ")"
+
+
 def res_obs(r):
     if r == "ok":
         return [0]
@@ -424,7 +461,7 @@ def run(rep):
     coq_cases, dist, evals, kinds = [], set(), 0, {}
     n = len(cases)
     for i, (c, o) in enumerate(zip(cases, outs)):
-        coq_cases.append((i, coq_case(c, True), common.to_obsv(impl_obs(o))))
+        coq_cases.append((i, compress(coq_case(c, True)), compress(common.to_obsv(impl_obs(o)))))
         kinds[c["kind"].split(" ")[0]] = kinds.get(c["kind"].split(" ")[0], 0) + 1
         prev = []
         for op, s in zip(c["ops"], o["steps"]):
@@ -433,11 +470,11 @@ def run(rep):
                 dist.add(json.dumps([op, prev], sort_keys=True))
             prev = s["book"]
     for j, (c, o) in enumerate(zip(rel_cases, rel_outs)):
-        coq_cases.append((n + j, coq_case(c, False), common.to_obsv(impl_obs(o))))
+        coq_cases.append((n + j, compress(coq_case(c, False)), compress(common.to_obsv(impl_obs(o)))))
         evals += len(o["steps"])
     sample_ids = [0, 2, 3, 4, n]
-    mm, samp = common.run_model_cases("C18", "From EC Require Import Model.AddrBook.", "Model.AddrBook.run_case",
-                                      coq_cases, shard_size=max(40, len(coq_cases) // 32 + 1), sample_ids=sample_ids)
+    mm, samp = common.run_model_cases("C18", PREAMBLE, "Model.AddrBook.run_case",
+                                      coq_cases, shard_size=max(40, (len(coq_cases) + 15) // 16), sample_ids=sample_ids)
     if mm:
         broken.append(f"correspondence vh addrbook vs Model.AddrBook.run_case: {len(mm)} disagreeing cases")
 
